@@ -15,6 +15,7 @@ from ..common import SPEC, NCPU, Result, workdir, seed, log, VERIF
 from ..evidence import finish
 
 PID = "C17"
+ARGS = ["--no-preprocessor"]          # no C preprocessor process per run (the programs use no macros)
 
 # ---------------------------------------------------------------------------------------------------------------
 def writer_program(fmt, vecs, outdir):
@@ -57,13 +58,13 @@ def do_write(fmt, vecs, d, tag):
     p = os.path.join(d, "write_%s.dl" % tag)
     with open(p, "w") as f:
         f.write(writer_program(fmt, vecs, os.path.join(d, "out")))
-    return p, io.souffle(p, out=os.path.join(d, "out"))
+    return p, io.souffle(p, out=os.path.join(d, "out"), args=ARGS)
 
 def do_read(fmt, vecs, d, tag, dump=False):
     p = os.path.join(d, "read_%s.dl" % tag)
     with open(p, "w") as f:
         f.write(reader_program(fmt, vecs, os.path.join(d, "out"), dump))
-    pr = io.souffle(p, facts=os.path.join(d, "out"), out=os.path.join(d, "out"))
+    pr = io.souffle(p, facts=os.path.join(d, "out"), out=os.path.join(d, "out"), args=ARGS)
     return p, pr, (parse_res(pr.out) if pr.kind == "ok" else None)
 
 # ---------------------------------------------------------------------------------------------------------------
@@ -157,74 +158,83 @@ def show(v):
     return "(" + ", ".join(io.show(t, x) for t, x in zip(v["types"], v["t"])) + ")"
 
 # ---------------------------------------------------------------------------------------------------------------
-def observe_bytes(fmt, v, d, o, basetext):
-    """Compare the written file with the specification's text (CSV family only)."""
-    n = fmt["name"]
-    spec = v if fmt["kind"] == "text" else basetext.get((n, v["k"], v["key"]))
-    if spec is None:
+def observe_bytes(fmt, v, d, o):
+    """Compare the written file with the specification's text (text formats, gzip after decompression)."""
+    if fmt["kind"] != "text":
         return
-    real = io.read_bytes(os.path.join(d, "out", "w%d%s" % (v["id"], io.file_ext(fmt))), gz=n.startswith("gzip"))
+    real = io.read_bytes(os.path.join(d, "out", "w%d%s" % (v["id"], io.file_ext(fmt))), gz=fmt["name"].startswith("gzip"))
     if real is None:
         return
     o["real"] = real.decode("latin-1")
-    o["bytes_equal"] = o["real"] == io.text(spec["txt"])
+    o["bytes_equal"] = o["real"] == io.text(v["txt"])
     if not o["bytes_equal"]:
-        for name, codes in (io.seq(spec["alt"]) or {}).items():
-            if io.text(codes) == o["real"]:
+        alt = io.seq(v["alt"]) or {}
+        for name in ("q", "b", "qb"):             # smallest known-deviation model that explains the bytes
+            if name in alt and io.text(alt[name]) == o["real"]:
                 o["alt"] = name
+                break
 
-def single(fmt, v, d, basetext):
-    """One vector on its own: write, look at the bytes, read back."""
-    sd = os.path.join(d, "v%d" % v["id"])
-    wp, w = do_write(fmt, [v], sd, "one")
-    o = {"write": w.kind, "werr": w.brief() if w.kind != "ok" else "", "read": None, "cmp": None}
-    files = {"write": wp}
+_tag = [0]
+def tag():
+    _tag[0] += 1
+    return "%d" % _tag[0]
+
+def write_set(fmt, vecs, d, outs):
+    """Write the vectors (one relation and one file each) with as few processes as possible: one program; when it does
+    not succeed the set is halved until the failing vectors are isolated."""
+    if not vecs:
+        return
+    wp, w = do_write(fmt, vecs, d, tag())
     if w.kind == "ok":
-        observe_bytes(fmt, v, sd, o, basetext)
-        rp, r, cmp = do_read(fmt, [v], sd, "one", dump=True)
-        files["read"] = rp
-        o["read"] = r.kind; o["rerr"] = r.brief() if r.kind != "ok" else ""
-        if r.kind == "ok":
-            if cmp is None or v["id"] not in cmp:
-                o["read"] = "error"; o["rerr"] = "result relation unreadable: " + r.out[-300:]
-            else:
-                o["cmp"] = cmp[v["id"]]
-                o["loaded"] = io.stdout_relation(r.out, "w%d" % v["id"])
-    return o, files, sd
+        for v in vecs:
+            o = outs[v["id"]]
+            o["write"] = "ok"; o["files"]["write"] = wp
+            observe_bytes(fmt, v, d, o)
+    elif len(vecs) == 1:
+        o = outs[vecs[0]["id"]]
+        o["write"] = w.kind; o["werr"] = w.brief(); o["files"]["write"] = wp
+    else:
+        h = len(vecs) // 2
+        write_set(fmt, vecs[:h], d, outs); write_set(fmt, vecs[h:], d, outs)
 
-def group_job(fmt, vecs, d, basetext):
-    """Batch: the representable vectors of one (format, shape) are written by one program (one relation and one file
-    each) and read back by one program.  A relation whose loading fails loudly is taken out and the rest re-read;
-    every vector that is not a clean batch pass is afterwards re-run on its own (todo)."""
-    out = {}
-    rep = [v for v in vecs if v["rep"]]
-    todo = [v for v in vecs if not v["rep"]]
-    if not rep:
-        return out, todo
-    wp, w = do_write(fmt, rep, d, "batch")
-    if w.kind != "ok":
-        return out, todo + rep
-    cur = list(rep)
-    for rnd in range(60):
-        if not cur:
-            break
-        rp, r, cmp = do_read(fmt, cur, d, "batch%d" % rnd)
-        if r.kind == "ok" and cmp is not None:
-            for v in cur:
-                o = {"write": "ok", "read": "ok", "cmp": cmp.get(v["id"]), "batch": True}
-                observe_bytes(fmt, v, d, o, basetext)
-                if o["cmp"] == (0, 0):
-                    out[v["id"]] = (o, {"write": wp, "read": rp}, d)
-                else:
-                    todo.append(v)
-            cur = []
-            break
-        m = re.search(r"Error loading w(\d+) data", r.err)
-        bad = [v for v in cur if m and v["id"] == int(m.group(1))]
-        if r.kind != "error" or not bad:
-            break
-        todo.append(bad[0]); cur.remove(bad[0])
-    return out, todo + cur
+def read_set(fmt, vecs, d, outs):
+    """Read the files back and compare inside Datalog.  A relation whose loading fails with a message naming it is
+    recorded and taken out; an unattributable failure halves the set."""
+    if not vecs:
+        return
+    rp, r, cmp = do_read(fmt, vecs, d, tag(), dump=len(vecs) == 1)
+    if r.kind == "ok" and cmp is not None and all(v["id"] in cmp for v in vecs):
+        for v in vecs:
+            o = outs[v["id"]]
+            o["read"] = "ok"; o["cmp"] = cmp[v["id"]]; o["files"]["read"] = rp
+            if len(vecs) == 1:
+                o["loaded"] = io.stdout_relation(r.out, "w%d" % v["id"])
+        return
+    m = re.search(r"Error loading w(\d+) data", r.err)
+    bad = [v for v in vecs if m and v["id"] == int(m.group(1))]
+    if r.kind == "error" and bad:
+        o = outs[bad[0]["id"]]
+        o["read"] = "error"; o["rerr"] = r.brief(); o["files"]["read"] = rp
+        read_set(fmt, [v for v in vecs if v is not bad[0]], d, outs)
+    elif len(vecs) == 1:
+        o = outs[vecs[0]["id"]]
+        o["read"] = r.kind if r.kind != "ok" else "error"; o["rerr"] = r.brief() or ("result relation unreadable: " + r.out[-200:])
+        o["files"]["read"] = rp
+    else:
+        h = len(vecs) // 2
+        read_set(fmt, vecs[:h], d, outs); read_set(fmt, vecs[h:], d, outs)
+
+def group_job(fmt, vecs, d):
+    """All vectors of one (format, shape): {id: outcome}."""
+    outs = {v["id"]: {"write": None, "read": None, "cmp": None, "files": {}} for v in vecs}
+    for part in ([v for v in vecs if v["rep"]], [v for v in vecs if not v["rep"]]):
+        write_set(fmt, part, d, outs)
+        read_set(fmt, [v for v in part if outs[v["id"]]["write"] == "ok"], d, outs)
+    return outs
+
+def single(fmt, v, d):
+    outs = group_job(fmt, [v], d)
+    return outs[v["id"]]
 
 def run(tier, replay=None):
     res = Result(PID, tier)
@@ -244,70 +254,54 @@ def run(tier, replay=None):
     res.add_tlc(r)
     fmts = {j["i"]: j for j in r["json"] if j.get("tag") == "FMT"}
     vecs = [j for j in r["json"] if j.get("tag") == "V"]
+    r = None
     for i, v in enumerate(vecs):
-        v["id"] = i; v["t"] = io.seq(v["t"]); v["types"] = io.seq(v["types"]); v["key"] = json.dumps(v["t"], sort_keys=True)
+        v["id"] = i; v["t"] = io.seq(v["t"]); v["types"] = io.seq(v["types"])
         for x in v["t"]:
             if x["k"] == "fv" and not io.is_binary32(io.float_fraction(x)):
                 res.infra_errors.append("float domain of MC_CsvIO contains a non-binary32 value: %s" % x)
-    # text of the rfc4180 / tsv base formats, for the gzip channels
-    base = {}
-    for v in vecs:
-        f = fmts[v["f"]]
-        if f["kind"] == "text" and not f["headers"] and not f["explicit"]:
-            base[("gzip-rfc4180" if f["rfc"] else "gzip-tsv", v["k"], v["key"])] = v
+    rng = random.Random(seed())
     groups = {}
+    nun = 0
     for v in vecs:
         groups.setdefault((v["f"], v["k"]), []).append(v)
-    res.cov.update({"vectors": len(vecs), "vectors_representable": sum(1 for v in vecs if v["rep"]),
+    per_group = 3 if tier == "quick" else 10 ** 9      # unrepresentable tuples are observations only: a seeded sample in the quick tier
+    for key in sorted(groups):
+        g = groups[key]
+        un = [v for v in g if not v["rep"]]
+        keep = set(x["id"] for x in (rng.sample(un, per_group) if len(un) > per_group else un))
+        groups[key] = [v for v in g if v["rep"] or v["id"] in keep]
+        nun += len(keep)
+    res.cov.update({"vectors": len(vecs), "vectors_representable": sum(1 for v in vecs if v["rep"]), "unrepresentable_run": nun,
                     "formats": [fmt_name(f) for f in fmts.values()], "relation_shapes": sorted({v["k"] for v in vecs})})
-    rng = random.Random(seed())
     pool = cf.ThreadPoolExecutor(NCPU)
     try:
-        # phase 1: batches
-        futs = {}
-        for (fi, k), g in groups.items():
-            d = os.path.join(wd, "f%d_%s" % (fi, k))
-            futs[(fi, k)] = pool.submit(group_job, fmts[fi], g, d, base)
-        singles = []
-        for (fi, k), fu in futs.items():
-            done, todo = fu.result()
-            d = os.path.join(wd, "f%d_%s" % (fi, k))
-            for v in groups[(fi, k)]:
-                if v["id"] in done:
-                    o, files, sd = done[v["id"]]
-                    judge(res, kf, fmts[fi], v, o, sd, files)
-            res.count("batches")
-            if not any(v["rep"] for v in todo) and any(v["rep"] for v in groups[(fi, k)]):
-                res.count("batches_clean")
-            singles += [(fi, v, d) for v in todo]
-        # phase 2: everything else on its own (unrepresentable tuples: a seeded sample in the quick tier)
-        unrep = [s for s in singles if not s[1]["rep"]]
-        repl = [s for s in singles if s[1]["rep"]]
-        cap = 600 if tier == "quick" else len(unrep)
-        if len(unrep) > cap:
-            unrep = rng.sample(unrep, cap)
-        res.cov["unrepresentable_run"] = len(unrep)
-        jobs = repl + unrep
-        outs = list(pool.map(lambda s: single(fmts[s[0]], s[1], s[2], base), jobs))
-        for (fi, v, d), (o, files, sd) in zip(jobs, outs):
-            judge(res, kf, fmts[fi], v, o, sd, files)
-            if v["rep"] and o.get("cmp") == (0, 0):
-                shutil.rmtree(sd, ignore_errors=True)
-            elif not v["rep"]:
-                shutil.rmtree(sd, ignore_errors=True)
-            if v["rep"] and len(res.cov["samples"]) < 6 and rng.random() < 0.02:
-                res.sample({"format": fmt_name(fmts[fi]), "tuple": show(v), "spec_text": io.text(v["txt"]) if v["txt"] else None,
-                            "real_text": o.get("real"), "round_trip": o.get("cmp") == (0, 0)})
+        futs = {key: pool.submit(group_job, fmts[key[0]], g, os.path.join(wd, "f%d_%s" % key)) for key, g in groups.items()}
+        for key in sorted(futs):
+            outs = futs[key].result()
+            d = os.path.join(wd, "f%d_%s" % key)
+            fmt = fmts[key[0]]
+            clean = True
+            for v in groups[key]:
+                o = outs[v["id"]]
+                o["cmp"] = tuple(o["cmp"]) if o["cmp"] is not None else None
+                judge(res, kf, fmt, v, o, d, o["files"])
+                ok = o["write"] == "ok" and o["read"] == "ok" and o["cmp"] == (0, 0)
+                clean = clean and (ok or not v["rep"])
+                if v["rep"] and fmt["kind"] == "text" and (not ok or rng.random() < 0.002):
+                    res.sample({"format": fmt_name(fmt), "tuple": show(v), "spec_text": io.text(v["txt"]),
+                                "real_text": o.get("real"), "round_trip": ok}, limit=8)
+            res.count("relation_groups")
+            if clean:
+                res.count("relation_groups_clean")
+                shutil.rmtree(d, ignore_errors=True)
     finally:
         pool.shutdown()
-    for v in vecs:       # a few batch samples as well
-        if v["rep"] and len(res.cov["samples"]) < 6 and fmts[v["f"]]["kind"] == "text" and rng.random() < 0.001:
-            res.sample({"format": fmt_name(fmts[v["f"]]), "tuple": show(v), "spec_text": io.text(v["txt"])})
     return finish(res, "model_checking", assumptions=[
         "program-text facts denote the tuples the specification names (string escapes of the scanner; cross-checked by the raw tab-separated bytes)",
         "floats are restricted to binary32 values whose exact decimal expansion has at most 9 significant digits, plus inf/-inf/nan/smallest subnormal as opaque tokens",
-        "gzip, JSON and SQLite are treated as channels: only round trip is judged, their bytes are not modelled",
-        "tuples the specification calls unrepresentable in a plain text format are not judged (counted as observations)",
+        "JSON and SQLite are treated as channels: only round trip is judged, their bytes are not modelled; gzip files are compared after decompression",
+        "tuples the specification calls unrepresentable in a plain text format are not judged (outcome classes counted as observations; a seeded sample in the quick tier)",
         "carriage return is not in the alphabet; interpreter IO only (the synthesised code uses the same stream classes)"])
 
 def run_replay(path):
@@ -315,9 +309,10 @@ def run_replay(path):
         rp = json.load(f)
     fmt, v = rp["format"], rp["vector"]
     d = workdir(PID + "_replay")
-    o, files, sd = single(fmt, v, d, {})
+    o = single(fmt, v, d)
+    o["cmp"] = tuple(o["cmp"]) if o["cmp"] is not None else None
     print(json.dumps({"format": fmt_name(fmt), "tuple": show(v), "outcome": {k: x for k, x in o.items() if k != "real"},
-                      "real_text": o.get("real"), "spec_text": io.text(v["txt"]), "files": files}, indent=1, default=str))
+                      "real_text": o.get("real"), "spec_text": io.text(v["txt"])}, indent=1, default=str))
     bad = o["write"] != "ok" or o["read"] != "ok" or o["cmp"] != (0, 0)
     if bad and v["rep"]:
         print("VIOLATION property=%s replay=%s" % (PID, path))
